@@ -331,12 +331,17 @@ def run(tier, seed, replay=None):
             cases.append(r)
     # TLC decides the block equation on the lattice
     nbad = 0
-    for c0 in range(0, len(cases), 3000):
+    def _eq_batch(c0):
         wd = tlc.workdir("c07/eq%d" % (c0 // 3000))
         cf, of = os.path.join(wd, "cases.json"), os.path.join(wd, "out.json")
         with open(cf, "w") as fh:
             json.dump([r["case"] for r in cases[c0:c0 + 3000]], fh)
-        rr = tlc.run_tlc("MC_Kkt", "SPECIFICATION Spec\n", wd, workers=1, env={"CASE_FILE": cf, "OUT_FILE": of}, timeout=1500, heap="6g")
+        return tlc.run_tlc("MC_Kkt", "SPECIFICATION Spec\n", wd, workers=1, env={"CASE_FILE": cf, "OUT_FILE": of}, timeout=3000, heap="4g"), of
+    from concurrent.futures import ThreadPoolExecutor
+    starts = list(range(0, len(cases), 3000))
+    with ThreadPoolExecutor(max_workers=8) as ex:          # the batches are independent TLC evaluations
+        batch_results = list(ex.map(_eq_batch, starts))
+    for c0, (rr, of) in zip(starts, batch_results):
         if not ck.require_tlc_ok("MC_Kkt batch %d (%d solves)" % (c0 // 3000, len(cases[c0:c0 + 3000])), rr):
             ck.finish()
         with open(of) as fh:
